@@ -149,12 +149,25 @@ impl BlockWriter {
         }
 
         let mut offset: usize = 0;
+        let mut stalled = false;
         loop {
             let size = self.decoder.as_mut().unwrap().write(&pkt[offset..])?;
             self.decoder_read(writer, now)?;
             offset += size;
             if offset == pkt.len() {
                 break;
+            }
+
+            if size == 0 {
+                // The ring buffer was full, decoder_read() should have drained it
+                if stalled {
+                    return Err(FluteError::new(
+                        "Decoder does not consume the data of the block anymore",
+                    ));
+                }
+                stalled = true;
+            } else {
+                stalled = false;
             }
         }
         Ok(())
